@@ -818,3 +818,39 @@ theorem specsW : ∀ f, SpecsW f
       innerStatements := innerStatementsW ih, moreStatements := moreStatementsW ih, topLoop := topLoopW ih }
 
 end Ecal.Parse
+
+namespace Ecal.Parse
+open Ecal.Lex
+
+/-- ParseWithRuntime's body: a returned tree is well formed (any token list, any fuel) -/
+theorem parseBody_wf (fuel : Nat) (toks : List Tok) :
+    Sat (parseBody fuel) { toks := toks, node := none } (fun r _ => WellFormed r = true) ET := by
+  have ih := specsW fuel
+  unfold parseBody
+  wpr (advance_spec _)
+  intro _ p1 ⟨hc1, _⟩
+  wpr (ih.run _ _ hc1)
+  intro n p2 ⟨hc2, hr2⟩
+  apply Sat.bind (Q1 := fun n' q => Cur q ∧ WellFormed n' = true) (E1 := ET) ?_ (fun _ he => he)
+  · intro n' p3 ⟨hc3, hn3⟩
+    apply Sat.bind (Sat.getP (Q := fun a p' => p3 = a ∧ p3 = p') ⟨rfl, rfl⟩) (fun _ he => he)
+    rintro _ _ ⟨rfl, rfl⟩
+    obtain ⟨hi, nx, hnx⟩ := hc3
+    simp only [hnx]
+    obtain ⟨t, ht⟩ := (hi nx hnx).tok
+    wpr (tokOf_spec _ ht)
+    rintro _ _ ⟨rfl, rfl⟩
+    split
+    · exact Sat.throw trivial
+    · exact Sat.pure hn3
+  · obtain ⟨nt, hnt⟩ := hr2.1
+    wpr (hasMoreStatements_spec hnt hc2)
+    rintro b _ rfl
+    split
+    · smk
+      wlast (ih.topLoop _ _ _ hc2 hr2.1 ((kw_statements _).add hr2.2.1))
+      intro r p3 ⟨hc3, e, he⟩
+      exact ⟨hc3, (wf_statements he.of_add).1⟩
+    · exact Sat.pure ⟨hc2, hr2.2.1⟩
+
+end Ecal.Parse
